@@ -29,6 +29,10 @@ func c18Progs(native bool) []*actlang.Prog {
 		prog(native, Op{K: actlang.Throw}),
 		prog(native, Op{K: actlang.RetScalar}),
 		prog(native, Op{K: actlang.Del, A: "k!"}, Op{K: actlang.Del, A: "cfg!"}, Op{K: actlang.Throw}),
+		// a permanent binding made by the branch's own pattern (a variable whose name ends in '!') is present
+		// before the guard runs like any other
+		prog(native, Op{K: actlang.Del, A: "?dev!"}),
+		prog(native, Op{K: actlang.Set, A: "?dev!", V: "changed"}, Op{K: actlang.Del, A: "k!"}),
 	}
 	if native {
 		ps = append(ps, prog(true, Op{K: actlang.NativeNilExec}), prog(true, Op{K: actlang.NativeErrPartial}))
@@ -104,7 +108,7 @@ func C18(c *vh.Ctx) {
 		}
 		return
 	}
-	c.Rule("states with 0-2 permanent ('k!', 'cfg!') and 0-2 ordinary bindings x action and guard programs (delete / overwrite / clear / fresh object / same object / empty / null / throw / non-object / native nil execution / partial execution / deep mutation; native and ECMAScript) x node shape (action node with guarded branch; message node with guarded branch) x error routing; oracle: every permanent binding present before is present and equal in any resulting state, no crash, and the step is one the reference allows. non-trivial = state has a permanent binding.")
+	c.Rule("states with 0-2 permanent ('k!', 'cfg!') and 0-2 ordinary bindings x action and guard programs (delete / overwrite / clear / fresh object / same object / empty / null / throw / non-object / native nil execution / partial execution / deep mutation; native and ECMAScript) x branch pattern (none; binding an ordinary variable; binding a permanent variable '?dev!') x node shape (action node with guarded branch; message node with guarded branch) x error routing; oracle: every permanent binding present before is present and equal in any resulting state, no crash, and the step is one the reference allows. non-trivial = state has a permanent binding.")
 	var idx uint64
 	for _, native := range []bool{true, false} {
 		ps := c18Progs(native)
@@ -117,7 +121,7 @@ func C18(c *vh.Ctx) {
 				if c.Expired() {
 					return
 				}
-				for _, pat := range []interface{}{nil, M{"a": "?x"}} {
+				for _, pat := range []interface{}{nil, M{"a": "?x"}, M{"a": "?dev!"}} {
 					for shape := 0; shape < 2; shape++ {
 						var node *rstep.ANode
 						if shape == 0 {
